@@ -438,6 +438,11 @@ impl PdfString {
             for &b in self.data.as_slice() {
                 match b {
                     b'\\' | b'(' | b')' => write!(out, r"\")?,
+                    // an unescaped CR is an end-of-line marker and reads back as LF
+                    b'\r' => {
+                        write!(out, r"\r")?;
+                        continue;
+                    }
                     _ => ()
                 }
                 out.write_all(&[b])?;
